@@ -104,7 +104,7 @@ def register(claim, not_yet):
           'Lean 4 theorems over source-translated axis functions (interval_cases + decide) + exact correspondence + layout/mask/prefix oracle', 'DESIGN.md §4 C12')
     claim('C13',
           'Proved for every even filter length, dilation and signal length: afb1d_atrous in periodic mode equals the pywt swt formula (circular correlation with the dilated filter), and that '
-          'formula is circular-shift equivariant for every shift. THE MODULE: the implementation model of SWTForward (mode alias, level loop with dilation 2^j, (A,H,V,D) packing) equals pywt.swt2 for every J on every non-empty image (SWTForward_eq_swt2), and it is circular-shift equivariant in two dimensions: on the image rolled by any (s1, s2) every band of every level is the band rolled by (s1, s2), for every image size, every J and all even filter lengths (C13S.SWTForward_shift; the 1-D statement lifted along rows and columns through tr(roll x) = roll(tr x), then by induction over the levels). Channel stacks and the (N,C,4,H,W) reshape are decided by the exact correspondence and by '
+          'formula is circular-shift equivariant for every shift. THE MODULE: the implementation model of SWTForward (mode alias, level loop with dilation 2^j, (A,H,V,D) packing) equals pywt.swt2 for every J on every non-empty image (SWTForward_eq_swt2), and it is circular-shift equivariant in two dimensions: on the image rolled by any (s1, s2) every band of every level is the band rolled by (s1, s2), for every image size, every J and all even filter lengths (C13S.SWTForward_shift; the 1-D statement lifted along rows and columns through tr(roll x) = roll(tr x), then by induction over the levels). EVERY CHANNEL COUNT: on a stack of C images level j, channel c of the output is level j of pywt.swt2 of channel c alone, for every C and J (C13M.SWTForward_multi; the (C,4,H,W) packing is channel 4c+k = band k of channel c, afb2dAtrous_multi). The batch axis is decided by the exact correspondence and by '
           'pywt.swt2 + shift checks on the real code.' + TIE + BRK,
           'Lean 4 refinement + shift-equivariance theorems + exact correspondence + pywt.swt2 oracle', 'DESIGN.md §4 C13')
     claim('C14',
